@@ -15,6 +15,7 @@ type docsetOpts struct {
 	multiSat   bool // bias to several simultaneously satisfied conjunctions (C04)
 	mixedSizes bool // bias to mixed sizes / early exit (C02)
 	noPre      bool // do not give the builder an earlier generation
+	alpha      int  // value alphabet size (0 = the default 6); with a large one a query may hit 9 and more lists of one field
 	valueShape func(r *Rand, vals []int64) TV
 	queryShape func(r *Rand, vals []int64) TV
 }
@@ -128,6 +129,13 @@ func floatShape(r *Rand, vals []int64) TV {
 	return tvSlice("[]float64", l...)
 }
 
+func (o *docsetOpts) alphaOr(d int) int {
+	if o.alpha > 0 {
+		return o.alpha
+	}
+	return d
+}
+
 func randVals(r *Rand, n int, alphabet int) []int64 {
 	vs := make([]int64, n)
 	for i := range vs {
@@ -144,7 +152,7 @@ func genConj(r *Rand, o *docsetOpts) eConj {
 	case 1: // all negative
 		n := 1 + r.Intn(3)
 		for i := 0; i < n; i++ {
-			cj = append(cj, eExpr{F: r.Intn(o.nFields), Inc: false, V: o.valueShape(r, randVals(r, 1+r.Intn(3), 6))})
+			cj = append(cj, eExpr{F: r.Intn(o.nFields), Inc: false, V: o.valueShape(r, randVals(r, 1+r.Intn(3), o.alphaOr(6)))})
 		}
 		return cj
 	}
@@ -161,7 +169,7 @@ func genConj(r *Rand, o *docsetOpts) eConj {
 		if r.Chance(80) && nv == 0 {
 			nv = 1
 		}
-		cj = append(cj, eExpr{F: f, Inc: r.Chance(70), V: o.valueShape(r, randVals(r, nv, 6))})
+		cj = append(cj, eExpr{F: f, Inc: r.Chance(70), V: o.valueShape(r, randVals(r, nv, o.alphaOr(6)))})
 	}
 	return cj
 }
@@ -177,6 +185,8 @@ func genDocset(r *Rand, o *docsetOpts) eCase {
 			oo.queryShape = floatShape
 		case 2: // floats in the index against integers at query time
 			oo.valueShape = floatShape
+		case 3, 4: // a large value alphabet: many posting lists per field, queries assigning 9..16 values to one field
+			oo.alpha = 24
 		}
 		o = &oo
 	}
@@ -227,7 +237,11 @@ func genDocset(r *Rand, o *docsetOpts) eCase {
 			case 3:
 				q.A = append(q.A, eAssign{F: f, V: tvSlice("[]int")})
 			default:
-				q.A = append(q.A, eAssign{F: f, V: o.queryShape(r, randVals(r, 1+r.Intn(3), 7))})
+				nq := 1 + r.Intn(3)
+				if o.alpha > 0 && r.Chance(40) { // many values on one field: 9 and more posting lists behind one field cursor
+					nq = 9 + r.Intn(8)
+				}
+				q.A = append(q.A, eAssign{F: f, V: o.queryShape(r, randVals(r, nq, o.alphaOr(6)+1))})
 			}
 		}
 		q.Debug = r.Chance(20)
@@ -296,7 +310,7 @@ func smallScope(kind string, add func(in interface{})) {
 	}
 }
 
-const e2eRule = "seeded document sets (1..maxDocs documents, 1..4 and sometimes 200+ conjunctions, 0..6 expressions over the fields with repetition on one field, 0..4 values from the alphabet {-1, 0, 1..5} in several Go representations (per docset sometimes as identities beyond the int64 range 2^63+v in unsigned / decimal-string form, or as fractional floats on one side), empty lists, all-negative and empty conjunctions, ids incl. 0 and +-(2^43-1)), every tenth case over 9..16 fields, every eighth with pattern and range fields next to the default ones; documents added one per AddDocument call or (30%) in groups of 2..5, (20%) with an intermediate BuildIndex before the remaining documents, (25%) on a builder that has already built and Reset an earlier generation; 8..20 queries per index (absent/nil/empty/1..3 values per field, an unknown field, repeats, debug options on 20%); thorough adds the exhaustive small scope (2 documents, conjunctions of <=2 atoms over 2 fields x 2 values, all 16 assignments). A case is non-trivial when some query returns a non-empty proper subset of the accepted documents; distinct = distinct input"
+const e2eRule = "seeded document sets (1..maxDocs documents, 1..4 and sometimes 200+ conjunctions, 0..6 expressions over the fields with repetition on one field, 0..4 values from the alphabet {-1, 0, 1..5} in several Go representations (per docset sometimes as identities beyond the int64 range 2^63+v in unsigned / decimal-string form, or as fractional floats on one side), empty lists, all-negative and empty conjunctions, ids incl. 0 and +-(2^43-1)), every tenth case over 9..16 fields, every eighth with pattern and range fields next to the default ones; documents added one per AddDocument call or (30%) in groups of 2..5, (20%) with an intermediate BuildIndex before the remaining documents, (25%) on a builder that has already built and Reset an earlier generation; 8..20 queries per index (absent/nil/empty/1..3 values per field -- one docset in six over a 24-value alphabet with 9..16 values per field --, an unknown field, repeats, debug options on 20%); thorough adds the exhaustive small scope (2 documents, conjunctions of <=2 atoms over 2 fields x 2 values, all 16 assignments). A case is non-trivial when some query returns a non-empty proper subset of the accepted documents; distinct = distinct input"
 
 func init() {
 	gen := func(kind string, multiSat, mixed bool) func(tier string, r *Rand, add func(in interface{})) {
